@@ -29,7 +29,7 @@ ASSUMPTIONS = [
     "matchings that violate the junction conditions (C02, known finding D9) are not 'matched flows': skipped here and tagged skipped-nonconserved",
     "Tn tolerance = 8*(rtol+atol/v+)*|dlnTn/dlnv+| (brentq on v+) + 30*rtol (RK45 shock integration, brentq on Tn), floor 1e-10",
     "momentum-flux clause only for EOS with constant c_s ahead of the wall (bag, template)",
-    "efficiency factor: relative tolerance 5e-3 (tight) / 1e-2 (default): Simpson rule over the RK45 nodes; the repository's own acceptance is 1e-2",
+    "efficiency factor: relative tolerance 100*rtol + 5e-6 (RK45 tolerance + Simpson rule over 400 uniform samples of the dense output)",
 ]
 
 
@@ -100,6 +100,8 @@ def case_eos(c: dict) -> dict:
             b = _oracle_Tn_of_vp(eos, v, vp * (1 - h), Tp, Tm, branch)
             S = abs(a - b) / (2 * h * Tn) if (a is not None and b is not None) else 50.0
             t = (8 * (tol["rtol"] + tol["atol"] / vp) * S + 30 * tol["rtol"]) * Tn + 1e-10 * Tn
+            if sh["kind"] == "acoustic":
+                t += 1e-7 * Tn  # the code stops its own integration at the absolute fluid velocity 1e-8 and crosses a front there
             r.close(f"{name}:shock-reaches-Tn", sh["Tn"], Tn, t, vw=v, vp=vp, Tp=Tp / Tn, kind=sh["kind"], xi_sh=sh["xi_sh"], S=S, branch=branch)
             if const_cs and sh["kind"] == "shock":
                 # momentum flux across the front, relative to w_n: limited by the same Tn accuracy
@@ -114,7 +116,7 @@ def case_eos(c: dict) -> dict:
                 r.true(f"{name}:kappa-no-exception", False, error=repr(ex)[:200], vw=v)
                 continue
             k_or, parts = OH.kappa(eos, v, vp, vm, Tp, Tm, Tn, alN)
-            kt = (5e-3 if c["tol"] == "tight" else 1e-2) * abs(k_or) + 1e-12
+            kt = (100 * tol["rtol"] + 5e-6) * abs(k_or) + 1e-12  # ODE tolerance + Simpson rule on 400 uniform samples
             r.close(f"{name}:kappa", k_code, k_or, kt, vw=v, parts=parts, branch=branch)
             r.tag("kappa-" + branch)
     return r.result(nontrivial=nshock > 0)
